@@ -155,6 +155,22 @@ def bundle_decisions_by_index(base_path, decisions):
 # - if we have a strategy at this level, we can try to resolve all
 #   conflicts of subdocument as well as those at this level
 
+def _drop_decisions_on_keys(decisions, base_path, keys):
+    """Drop the decisions that change any of the entries `keys` of the dict
+    at base_path: the caller is about to write those entries itself.
+
+    (base may still hold such an entry from an earlier merge, and a side
+    that removed or edited it would leave a second diff entry on the key)
+    """
+    def targets(d):
+        rel = tuple(d.common_path[len(base_path):])
+        if rel:
+            return rel[0] in keys
+        return any(e.key in keys
+                   for e in list(d.local_diff or []) + list(d.remote_diff or []))
+    decisions.decisions = [d for d in decisions if not targets(d)]
+
+
 def resolve_strategy_inline_attachments(base_path, attachments, decisions):
     strategy = "inline-attachments"
 
@@ -212,6 +228,10 @@ def resolve_strategy_inline_attachments(base_path, attachments, decisions):
             remote_name = "REMOTE_" + key
 
             custom_diff = []
+
+            # (the copies made here replace whatever the sides did to
+            # copies left over from an earlier merge)
+            _drop_decisions_on_keys(decisions, base_path, (local_name, remote_name))
 
             if local_name in attachments:
                 nbdime.log.warning(
@@ -456,6 +476,9 @@ def resolve_strategy_record_conflicts(base_path, base, decisions):
     # Drop conflict decisions
     #conflict_decisions = [d for d in decisions if d.conflict]
     decisions.decisions = [d for d in decisions if not d.conflict]
+    # (the record written here replaces whatever the sides did to a record
+    # left over from an earlier merge)
+    _drop_decisions_on_keys(decisions, base_path, ("nbdime-conflicts",))
 
     # Record remaining conflicts in field nbdime-conflicts
     conflicts_dict = {
